@@ -206,6 +206,63 @@ static void rmw_litmus (void) {
 	}
 	free (rm_cell); for (t = 0; t < 4; t++) { free (rm_res[t]); free (rm_ok[t]); }
 }
+/* compare-and-exchange flow litmus: a word is moved between the values 0, 1 and 2 by successful compare-and-exchange calls only.
+ * Per round two "togglers" try 0->1 and 1->0 in turn and a "closer" spins on 1->2; when it succeeds everybody stops.  Nothing is logged
+ * inside a round; afterwards the numbers of successful moves of each kind and the final word form the outcome (pairs of opposite
+ * moves are cancelled before the outcome is recorded - that keeps the number of distinct outcomes small and preserves the balance
+ * AtomicsLin checks). */
+typedef struct { volatile pint w; char pad1[60]; volatile ppointer pw; char pad2[56]; volatile int stop, done; char pad3[56]; } FlCell;
+static FlCell *fl_cell; static volatile int fl_round[3]; static int fl_ptr; static int *fl_n[3][2];
+static int fl_cas (FlCell *c, long a, long b) {
+	return fl_ptr ? (p_atomic_pointer_compare_and_exchange (&c->pw, (ppointer) a, (ppointer) b) ? 1 : 0) : (p_atomic_int_compare_and_exchange (&c->w, (pint) a, (pint) b) ? 1 : 0);
+}
+static void *fl_thread (void *arg) {
+	int me = (int) (long) arg, i, j;
+	sb_pin (me);
+	for (i = 0; i < lit_rounds; i++) {
+		FlCell *c = &fl_cell[i]; int spins = 0, k, n0 = 0, n1 = 0;
+		__atomic_store_n (&fl_round[me], i + 1, __ATOMIC_SEQ_CST);
+		for (j = 0; j < 3; j++) while (__atomic_load_n (&fl_round[j], __ATOMIC_SEQ_CST) < i + 1) if (++spins > (lit_ncpu > 1 ? 50000 : 0)) { sched_yield (); spins = 0; }
+		if (me < 2) {          /* toggler */
+			for (k = 0; k < 400 && !__atomic_load_n (&c->stop, __ATOMIC_RELAXED); k++) { n0 += fl_cas (c, 0, 1); n1 += fl_cas (c, 1, 0); }
+			__atomic_add_fetch (&c->done, 1, __ATOMIC_SEQ_CST);
+		} else {               /* closer */
+			for (;;) {
+				int fin = __atomic_load_n (&c->done, __ATOMIC_SEQ_CST) == 2;
+				if (fl_cas (c, 1, 2)) { n0 = 1; break; }
+				if (fin) break;
+				if (lit_ncpu <= 1) sched_yield ();
+			}
+			__atomic_store_n (&c->stop, 1, __ATOMIC_SEQ_CST);
+		}
+		fl_n[me][0][i] = n0; fl_n[me][1][i] = n1;
+	}
+	return NULL;
+}
+static void flow_litmus (void) {
+	pthread_t th[3]; int i, t;
+	fl_cell = calloc (RM_ROUNDS, sizeof (FlCell)); if (!fl_cell) return;
+	for (t = 0; t < 3; t++) { fl_n[t][0] = calloc (RM_ROUNDS, sizeof (int)); fl_n[t][1] = calloc (RM_ROUNDS, sizeof (int)); if (!fl_n[t][0] || !fl_n[t][1]) return; }
+	for (fl_ptr = 0; fl_ptr <= 1; fl_ptr++) {
+		static struct { int n01, n10, n12, fin; long count; } out[64]; int nout = 0, k;
+		memset ((void *) fl_cell, 0, RM_ROUNDS * sizeof (FlCell));
+		for (t = 0; t < 3; t++) fl_round[t] = 0;
+		for (t = 0; t < 3; t++) pthread_create (&th[t], NULL, fl_thread, (void *) (long) t);
+		for (t = 0; t < 3; t++) pthread_join (th[t], NULL);
+		for (i = 0; i < lit_rounds; i++) {
+			int n01 = fl_n[0][0][i] + fl_n[1][0][i], n10 = fl_n[0][1][i] + fl_n[1][1][i], n12 = fl_n[2][0][i], m = n01 < n10 ? n01 : n10;
+			int fin = fl_ptr ? (int) (long) fl_cell[i].pw : (int) fl_cell[i].w;
+			n01 -= m; n10 -= m;
+			for (k = 0; k < nout; k++) if (out[k].n01 == n01 && out[k].n10 == n10 && out[k].n12 == n12 && out[k].fin == fin) break;
+			if (k == nout) { if (nout == 64) continue; out[k].n01 = n01; out[k].n10 = n10; out[k].n12 = n12; out[k].fin = fin; out[k].count = 0; nout++; }
+			out[k].count++;
+		}
+		for (k = 0; k < nout; k++)
+			VTM ("\"e\":\"casflow\",\"api\":\"%s\",\"init\":0,\"final\":%d,\"count\":%ld,\"moves\":[{\"f\":0,\"t\":1,\"n\":%d},{\"f\":1,\"t\":0,\"n\":%d},{\"f\":1,\"t\":2,\"n\":%d}]",
+			     fl_ptr ? "pointer" : "int", out[k].fin, out[k].count, out[k].n01, out[k].n10, out[k].n12);
+	}
+	free (fl_cell); for (t = 0; t < 3; t++) { free (fl_n[t][0]); free (fl_n[t][1]); }
+}
 int main (int argc, char **argv) {
 	if (argc < 4) return 2;
 	p_libsys_init (); p_libsys_shutdown (); p_libsys_init ();      /* the library is used after a shutdown / re-initialisation cycle */
@@ -236,6 +293,7 @@ int main (int argc, char **argv) {
 		litmus (200000);
 		sb_litmus ();
 		rmw_litmus ();
+		flow_litmus ();
 		vtm_close ();
 	}
 	p_libsys_shutdown ();
